@@ -24,6 +24,13 @@ Two kinds of case.
     'order': [addresses evaluated first], 'read': [addresses read afterwards]}: workbooks with CSE array formulas whose
     precedents are plain cells calling array-context-sensitive functions; every order must read the values a fresh
     compiler gives each address on its own.
+(5) tbl case (oracle only — structured references are not in the Lean model): {'kind': 'tbl', 'form': k, 'geom': [c0, r0],
+    'vals': [[qty, price]…], 'order': [targets], 'pre': optional [c0, r0, vals] of ANOTHER workbook (same sheet name, same
+    formula texts, other geometry and values) that is compiled and evaluated first in the same process, 'fresh': 0|1}:
+    an Excel table `Sales` whose calculated column holds the SAME formula text in every row, with a position-dependent
+    meaning ([@Col], Sales[@Col], [#This Row], Sales[Col], ROW()/COLUMN(), a defined name).  Every first-evaluation
+    order must read the values of the A1-spelled twin workbook (texts differ per cell there), a fresh compiler per cell
+    must give the same before and after, and the other workbook must not leak into this one.
 (2) clip case: {'kind': 'clip', 'u': [c1, r1, c2, r2], 'mc': max_col, 'mr': max_row}: the rectangle an unbounded
     address covers on a sheet whose used area is (1,1,mc,mr), read off the shape of `evaluate`'s result.
 
@@ -63,7 +70,9 @@ RULE = ('deterministic core: ALL permutations of the first-evaluation order of f
         'of every unbounded address on small used areas; a blank cell beyond the used area read before / after the first '
         'unbounded access on the active and on a non-active sheet, directly and through COUNTIF over Sheet!A:A / 1:1; CSE '
         'array formulas over plain cells calling IFERROR/IFNA/IFS/IF/ROW/COLUMN/INDEX on ranges in all 24 first-evaluation '
-        'orders of {plain cell, array members, array range} (oracle only).  Random: DAG workbooks of 2-14 cells on one or two sheets with '
+        'orders of {plain cell, array members, array range} (oracle only); table workbooks whose calculated column holds one '
+        'formula text with position-dependent meaning (11 forms x 2 geometries x 10 first-evaluation orders, with and '
+        'without another same-named workbook compiled first; oracle only, against the A1-spelled twin).  Random: DAG workbooks of 2-14 cells on one or two sheets with '
         'histories of 3-20 evaluations by random paths (8% set_value).  Configurations: in-memory, openpyxl-saved file, '
         '.xlsx with stored results.  A case is non-trivial when a formula or range node is reached by two different '
         'paths or in an order that is not the topological one.')
@@ -73,12 +82,16 @@ ASSUMPTIONS = [
     'area are read too (30% of the random workbooks)',
     'the row edge (used area reaching row 1048576) is executed in full (a million cells) once, in the thorough tier; '
     'the quick tier runs its clipping step (address & used area) and the XFD column edge in full',
+    'table workbooks with structured references / ROW() / COLUMN() / a defined name in identical formula texts are '
+    'oracle-only as well (the Lean model has no structured references): order oracle + A1-spelled twin workbook + fresh '
+    'compiler per cell before and after + another workbook of the same sheet name compiled in between; R1C1 formula '
+    'text in a cell is not accepted by any loader path of pycel (AttributeError) and is not generated',
     'CSE array workbooks are compared by the implementation-only order oracle (fresh compiler per address); the Lean '
     'engine model has no CSE arrays, so there is no model output for that family',
     'nested lists of addresses are not generated (the code maps recursively; the model has flat lists)',
 ]
 TRUSTED = ['modelled, not verified: openpyxl (max_row/max_column, save/load), networkx, the concrete formula evaluator']
-REQUIRED_BUCKETS = ['extent', 'cse', 'absent:nodata', 'perm:nodata', 'perm:file', 'perm:xlsx', 'permset:nodata', 'permset:xlsx', 'permpath:nodata',
+REQUIRED_BUCKETS = ['extent', 'cse', 'sametext', 'absent:nodata', 'perm:nodata', 'perm:file', 'perm:xlsx', 'permset:nodata', 'permset:xlsx', 'permpath:nodata',
                     'clip', 'rand:nodata', 'rand:file', 'rand:xlsx']
 EXHAUSTIVE = False
 EXPLANATION = ('theorems: generic engine + access paths, all workbooks / orders / rectangles; correspondence: real '
@@ -392,6 +405,8 @@ def impl(case):
         return impl_extent(case)
     if case.get('kind') == 'raw':
         return impl_raw(case)
+    if case.get('kind') == 'tbl':
+        return impl_tbl(case)
     nodes = case['nodes']
     key = json.dumps(case, sort_keys=True)
     comp = _compiler(case)
@@ -645,6 +660,158 @@ def cse_cases(tier):
         yield {'kind': 'raw', 'tag': 'cse', 'cells': cells, 'arrays': arrays, 'order': list(p), 'read': read}
 
 
+
+# ---------------------------------------------------------------------------------------------------------------
+# tbl family (oracle only): one formula text in every row of a table column, position-dependent meaning
+
+def _tbl_forms():
+    L = colname
+    return [
+        ('=[@Qty]*[@Price]', lambda c, r0, r, n: f'={L(c)}{r}*{L(c + 1)}{r}'),
+        ('=Sales[@Qty]*Sales[@Price]', lambda c, r0, r, n: f'={L(c)}{r}*{L(c + 1)}{r}'),
+        ('=Sales[[#This Row],[Qty]]*2', lambda c, r0, r, n: f'={L(c)}{r}*2'),
+        ('=SUM(Sales[Qty])', lambda c, r0, r, n: f'=SUM({L(c)}{r0 + 1}:{L(c)}{r0 + n})'),
+        ('=SUM([Price])', lambda c, r0, r, n: f'=SUM({L(c + 1)}{r0 + 1}:{L(c + 1)}{r0 + n})'),
+        ('=ROW()*2', lambda c, r0, r, n: f'={r}*2'),
+        ('=ROW()+COLUMN()', lambda c, r0, r, n: f'={r}+{c + 2}'),
+        ('=[@Qty]&"x"', lambda c, r0, r, n: f'={L(c)}{r}&"x"'),
+        ('=COUNT(Sales[[#This Row],[Qty]:[Price]])', lambda c, r0, r, n: f'=COUNT({L(c)}{r}:{L(c + 1)}{r})'),
+        ('=INDEX(Sales[Price],ROW()-%d)', lambda c, r0, r, n: f'=INDEX({L(c + 1)}{r0 + 1}:{L(c + 1)}{r0 + n},{r}-{r0})'),
+        ('=rate*[@Qty]', lambda c, r0, r, n: f'={L(c + 4)}{r0}*{L(c)}{r}'),
+    ]
+
+
+TBL_FORMS = _tbl_forms()
+_TBL_FILES = {}
+_TBL_FRESH = {}
+
+
+def _tbl_text(form, r0):
+    t = TBL_FORMS[form][0]
+    return t % r0 if '%d' in t else t
+
+
+def tbl_addrs(c0, r0, n):
+    total = [cell_addr('Sheet1', c0 + 2, r0 + i) for i in range(1, n + 1)]
+    return total, cell_addr('Sheet1', c0 + 5, r0), range_addr('Sheet1', c0 + 2, r0 + 1, c0 + 2, r0 + n)
+
+
+def _tbl_file(form, c0, r0, vals):
+    """the table workbook, saved once (openpyxl fills in the table columns on save) -> path"""
+    key = (form, c0, r0, json.dumps(vals))
+    if key not in _TBL_FILES:
+        import openpyxl
+        from openpyxl.worksheet.table import Table
+        from openpyxl.workbook.defined_name import DefinedName
+        wb = openpyxl.Workbook()
+        ws = wb.active
+        ws.title = 'Sheet1'
+        for j, h in enumerate(['Qty', 'Price', 'Total']):
+            ws.cell(r0, c0 + j, h)
+        for i, (q, p) in enumerate(vals, start=1):
+            ws.cell(r0 + i, c0, q)
+            ws.cell(r0 + i, c0 + 1, p)
+            ws.cell(r0 + i, c0 + 2, _tbl_text(form, r0))
+        n = len(vals)
+        ws.add_table(Table(displayName='Sales', ref=f'{colname(c0)}{r0}:{colname(c0 + 2)}{r0 + n}'))
+        ws.cell(r0, c0 + 4, 3 + c0)                                   # the cell the name `rate` points to
+        wb.defined_names['rate'] = DefinedName('rate', attr_text=f'Sheet1!${colname(c0 + 4)}${r0}')
+        ws.cell(r0, c0 + 5, '=SUM(Sales[Total])')                     # a dependant of the whole column
+        path = os.path.join(TMP, f'tbl{os.getpid()}-{len(_TBL_FILES)}.xlsx')
+        wb.save(path)
+        _TBL_FILES[key] = path
+    return _TBL_FILES[key]
+
+
+def _tbl_twin(form, c0, r0, vals):
+    """the same workbook spelled with A1 references: every cell has its own text -> expected read-out"""
+    n = len(vals)
+    cells = {}
+    for i, (q, p) in enumerate(vals, start=1):
+        cells[cell_addr('Sheet1', c0, r0 + i)] = q
+        cells[cell_addr('Sheet1', c0 + 1, r0 + i)] = p
+        cells[cell_addr('Sheet1', c0 + 2, r0 + i)] = TBL_FORMS[form][1](c0, r0, r0 + i, n)
+    cells[cell_addr('Sheet1', c0 + 4, r0)] = 3 + c0
+    total, dep, rng_ = tbl_addrs(c0, r0, n)
+    cells[dep] = f'=SUM({rng_.rpartition("!")[2]})'
+    return [_raw_eval(pyc.compiler_from(dict(cells)), a) for a in total + [dep]]
+
+
+def _tbl_run(form, c0, r0, vals, order):
+    from pycel import ExcelCompiler
+    comp = ExcelCompiler(filename=_tbl_file(form, c0, r0, vals))
+    total, dep, rng_ = tbl_addrs(c0, r0, len(vals))
+    for t in order:
+        if t == 'range':
+            _raw_eval(comp, rng_)
+        elif t == 'dep':
+            _raw_eval(comp, dep)
+        elif t == 'list':
+            try:
+                comp.evaluate(list(reversed(total)))
+            except Exception:   # noqa
+                pass
+        else:
+            _raw_eval(comp, total[t])
+    return [_raw_eval(comp, a) for a in total + [dep]]
+
+
+def _tbl_fresh_per_cell(form, c0, r0, vals):
+    from pycel import ExcelCompiler
+    total, dep, _ = tbl_addrs(c0, r0, len(vals))
+    path = _tbl_file(form, c0, r0, vals)
+    return [_raw_eval(ExcelCompiler(filename=path), a) for a in total + [dep]]
+
+
+def impl_tbl(case):
+    form, (c0, r0), vals = case['form'], case['geom'], case['vals']
+    fails = []
+    key = (form, c0, r0, json.dumps(vals))
+    if case.get('fresh') and key not in _TBL_FRESH:
+        _TBL_FRESH[key] = _tbl_fresh_per_cell(form, c0, r0, vals)          # before the subject model exists
+    outs = []
+    if case.get('pre'):
+        pc, pr, pvals = case['pre']
+        got = _tbl_run(form, pc, pr, pvals, [len(pvals) - 1, 'dep'])
+        want = _tbl_twin(form, pc, pr, pvals)
+        outs.append('pre:' + ','.join(got))
+        if got != want:
+            fails.append((0, f'the workbook compiled first (table at {colname(pc)}{pr}) reads {got}, its A1-spelled twin '
+                             f'{want}'))
+    got = _tbl_run(form, c0, r0, vals, case['order'])
+    want = _tbl_twin(form, c0, r0, vals)
+    outs.append(','.join(got))
+    if got != want and not fails:
+        fails.append((0, f'{_tbl_text(form, r0)} in {tbl_addrs(c0, r0, len(vals))[0]} after first evaluating '
+                         f'{case["order"]}' + (' (another workbook with the same sheet name compiled first)'
+                                               if case.get('pre') else '') +
+                         f': read-out {[core.show(x) for x in got]}, A1-spelled twin {[core.show(x) for x in want]}'))
+    if case.get('fresh'):
+        after = _tbl_fresh_per_cell(form, c0, r0, vals)
+        if not fails and (after != _TBL_FRESH[key] or after != want):
+            fails.append((0, f'a fresh compiler per cell gave {_TBL_FRESH[key]} before and {after} after the subject '
+                             f'model was evaluated (twin {want})'))
+    _ORACLE[json.dumps(case, sort_keys=True)] = fails
+    return ';'.join(outs)
+
+
+def tbl_cases(tier):
+    vals = [[2, 10], [3, 100], [4, 1000]]
+    other = [[5, 7], [6, 70], [8, 700]]
+    orders = [list(p) for p in itertools.permutations([0, 1, 2])] + [['range'], ['list'], ['dep'], [2, 'range', 0]]
+    geoms = [(1, 1), (2, 3)]
+    for form in range(len(TBL_FORMS)):
+        for gi, (c0, r0) in enumerate(geoms):
+            chosen = orders if tier == 'thorough' or form < 2 else orders[(form + gi) % 3::3]
+            for oi, order in enumerate(chosen):
+                yield {'kind': 'tbl', 'tag': 'sametext', 'form': form, 'geom': [c0, r0], 'vals': vals, 'order': order,
+                       'fresh': 1 if oi == 0 else 0}
+            oc, orow = geoms[1 - gi]
+            for order in (orders[5], ['range']):
+                yield {'kind': 'tbl', 'tag': 'sametext', 'form': form, 'geom': [c0, r0], 'vals': vals, 'order': order,
+                       'pre': [oc, orow, other], 'fresh': 0}
+
+
 # ---------------------------------------------------------------------------------------------------------------
 # engine family `absent`: a blank cell beyond the used area of the active / a non-active sheet, both orders
 
@@ -698,8 +865,8 @@ def model_lines(case):
     if case.get('kind') == 'extent':
         (c1, r1, c2, r2), mc, mr = extent_geometry(case)
         return [f'c05 clip {c1} {r1} {c2} {r2} {mc} {mr}']
-    if case.get('kind') == 'raw':
-        return []                # oracle-only family: the Lean model has no CSE arrays
+    if case.get('kind') in ('raw', 'tbl'):
+        return []                # oracle-only families: the Lean model has no CSE arrays / structured references
     nodes = case['nodes']
     cfg = {'nodata': 'nodata', 'file': 'nodata', 'xlsx': 'stored'}[case['cfg']]
     toks = ['c05', cfg, str(len(nodes))]
@@ -784,6 +951,11 @@ def oracles(results):
         key = json.dumps(r.case, sort_keys=True)
         for k, msg in _ORACLE.get(key, [])[:1]:
             yield r.case, f'op #{k}: {msg}'
+        if r.case.get('kind') == 'tbl':
+            if not r.case.get('pre'):
+                g = ('tbl', r.case['form'], json.dumps(r.case['geom']), json.dumps(r.case['vals']))
+                raw_groups.setdefault(g, []).append(r)
+            continue
         if r.case.get('kind') == 'raw':
             g = ('raw', json.dumps(r.case['cells'], sort_keys=True), json.dumps(r.case['arrays'], sort_keys=True),
                  bool(r.case.get('file')))
@@ -795,8 +967,8 @@ def oracles(results):
     for g, rs in raw_groups.items():
         for r in rs[1:]:
             if r.impl != rs[0].impl:
-                yield r.case, (f'read-out {core.show(r.impl)[:120]} after first evaluating {r.case["order"]} differs from '
-                               f'{core.show(rs[0].impl)[:120]} after {rs[0].case["order"]}')
+                yield r.case, (f'read-out {r.impl[:120]} after first evaluating {r.case["order"]} differs from '
+                               f'{rs[0].impl[:120]} after {rs[0].case["order"]}')
                 break
     for g, rs in groups.items():
         k = rs[0].case['perm']
@@ -828,7 +1000,7 @@ def finding_key(case, impl_out, model_out):
 # coverage
 
 def nontrivial(case):
-    if case.get('kind') in ('clip', 'extent', 'raw'):
+    if case.get('kind') in ('clip', 'extent', 'raw', 'tbl'):
         return True
     seen_nodes = set()
     kinds = set()
@@ -845,7 +1017,7 @@ def bucket(case):
         return 'clip'
     if case.get('kind') == 'extent':
         return 'extent'
-    if case.get('kind') == 'raw':
+    if case.get('kind') in ('raw', 'tbl'):
         return case.get('tag', 'raw')
     return f'{case.get("tag", "corpus")}:{case["cfg"]}'
 
@@ -1231,6 +1403,7 @@ def cases(tier, rng):
     yield from clip_cases(tier)
     yield from extent_cases(tier)
     yield from cse_cases(tier)
+    yield from tbl_cases(tier)
     yield from absent_cases(tier)
     yield from perm_cases(tier, rng)
     yield from rand_cases(tier, rng)
